@@ -129,6 +129,7 @@ async fn main() -> Result<(), Terminator> {
         let ctx_mut = Arc::get_mut(&mut st_mut.contexts).unwrap();
         st_mut.timeouts = cfg.timeouts;
         ctx_mut.default_timeout = st_mut.timeouts.idle;
+        ctx_mut.default_udp_timeout = st_mut.timeouts.udp;
         st_mut.listeners = listeners::from_config(&cfg.listeners)?;
         st_mut.connectors = connectors::from_config(&cfg.connectors)?;
 
